@@ -66,7 +66,8 @@ def rv(x):
 
 class SetDefaultOptions(Unit):
     name = "C19.set_default_options"
-    props = ("C19",)
+    props = ("C19", "C18", "C05")   # post.domains is assumed by Interpolation.__init__ / minimize (radii for C18, budgets for C05)
+    default_props = ("C19",)
     fmodel = "REAL"
     functions = [("cobyqa.main", "_set_default_options")]
     replay = ("contracts.replays", "set_default_options")
@@ -111,7 +112,8 @@ class SetDefaultOptions(Unit):
         # every variable is fixed (n == 0), in which case minimize returns before using them.
         c.oblige("C19.set_default_options.post.domains", z3.And(ri > 0, rf >= 0, rf <= ri, npt >= n.t + 1, npt <= npt_max,
                                                                 z3.Implies(z3.Or(n.t >= 1, P("maxfev")), mf >= 1),
-                                                                z3.Implies(z3.Or(n.t >= 1, P("maxiter")), mi >= 1)))
+                                                                z3.Implies(z3.Or(n.t >= 1, P("maxiter")), mi >= 1)),
+                 props=["C19", "C18", "C05"])
         # supplied values are kept
         kept = []
         from pyvc.core import tobool
@@ -156,7 +158,8 @@ class SetDefaultOptions(Unit):
 
 class SetDefaultConstants(Unit):
     name = "C19.set_default_constants"
-    props = ("C19",)
+    props = ("C19", "C18")          # post.valid is the `requires` of every TrustRegion method that C18 is proved under
+    default_props = ("C19",)
     fmodel = "REAL"
     functions = [("cobyqa.main", "_set_default_constants")]
     replay = ("contracts.replays", "set_default_constants")
@@ -189,7 +192,8 @@ class SetDefaultConstants(Unit):
             raise Unsupported("expected the completed constants dict")
         c.oblige_all([(f"C19.set_default_constants.post.present.{k}", res.present(k)) for k in CONST_DOMAINS])
         out = {k: res.value(k) for k in CONST_DOMAINS}
-        c.oblige("C19.set_default_constants.post.valid", constants_valid(out))
+        c.oblige("C19.set_default_constants.post.valid", constants_valid(out), props=["C19", "C18"],
+                 note="the completed constants violate the domains / orders the trust-region updates rely on")
         from pyvc.core import tobool
         grp = []
         for k, (kd, *_r) in CONST_DOMAINS.items():
